@@ -464,32 +464,51 @@ def r5(ctx):
     if span_var is None:
         raise AnalysisError('_add_fragment: span of the added fragment is not read')
 
+    pcount = [0]
+
     def check(attr, fn, idx):
-        asg = [s for s in walk_no_nested(g) if isinstance(s, ast.Assign) and src(s.targets[0]) == f'self.{attr}']
-        if len(asg) != 1:
-            return False, f'{len(asg)} assignments to self.{attr}', None
-        s = asg[0]
-        calls = [c for c in walk_no_nested(s.value) if isinstance(c, ast.Call) and dotted(c.func) in ('min', 'max')]
-        good = [c for c in calls if dotted(c.func) == fn and sorted(src(a) for a in c.args) == sorted([f'{span_var}[{idx}]', f'self.{attr}'])]
-        # the None arm must take the fragment's own coordinate
-        none_ok = True
-        if isinstance(s.value, ast.IfExp):
-            none_ok = src(s.value.test) in (f'self.{attr} is None',) and src(s.value.body) == f'{span_var}[{idx}]'
-        elif not good or s.value is not good[0]:
-            none_ok = False
-        return bool(good) and none_ok, src(s.value), s
+        """On every path from the append to a normal exit, for both states of the old value (None / a coordinate): the last value stored in
+        self.<attr> is the added fragment's coordinate (old None) resp. fn(old, coordinate).  Independent of how the update is written
+        (conditional expression, if/else, either branch order)."""
+        want_none = f'{span_var}[{idx}]'
+        want_some = {f'{fn}({span_var}[{idx}], self.{attr})', f'{fn}(self.{attr}, {span_var}[{idx}])'}
+        problems = []
+        site = None
+        for old_none in (True, False):
+            def atoms(e):
+                t = src(e)
+                if t == f'self.{attr} is None':
+                    return old_none
+                if t == f'self.{attr} is not None':
+                    return not old_none
+                return UNK
+
+            def step(state, node, label):
+                after, val = state
+                if node.kind == 'test' and label in ('true', 'false') and isinstance(node.ast, ast.If):
+                    v = eval3(node.ast.test, {}, atoms)
+                    if v is not UNK and bool(v) != (label == 'true'):
+                        return None
+                if node.id == app[0].id:
+                    after = True
+                if node.kind == 'stmt' and isinstance(node.ast, ast.Assign) and any(src(t) == f'self.{attr}' for t in node.ast.targets):
+                    val = node.ast
+                return (after, val)
+            for p_, (after, val) in cfg.paths(state0=(False, None), step=step):
+                if cfg.nodes[p_[-1][0]].info not in ('fall', 'return') or not after:
+                    continue
+                pcount[0] += 1
+                got = src(val.value) if val is not None else None
+                site = val if val is not None else site
+                if (old_none and got != want_none) or (not old_none and got not in want_some):
+                    problems.append(f'old value {"None" if old_none else "set"}: stores {got}')
+        return not problems, ('; '.join(sorted(set(problems))) or f'{want_none} when unset, {fn}(old, {want_none}) otherwise'), site
 
     for attr, fn, idx in (('spanStart', 'min', 1), ('spanEnd', 'max', 2)):
         ok, txt, s = check(attr, fn, idx)
-        # the update must be on every path after the append
-        dom_ok = False
-        if s is not None:
-            pd = cfg.dominators(reverse=True, roots=[t for k, t in cfg.terms.items() if k in ('fall', 'return')])
-            ids = cfg.nodes_of(s)
-            dom_ok = bool(ids) and any(i in pd[app[0].id] for i in ids)
-        ctx.emit('C07-R5', ok and dom_ok, MOLECULE, s if s is not None else g,
-                 f'self.{attr} = {txt}: ' + ('extends the span with the added fragment on every path after the append' if ok and dom_ok else
-                                            f'is not {fn}(old, {span_var}[{idx}]) on every accepting path'), key=f'span-update:{attr}')
+        ctx.emit('C07-R5', ok, MOLECULE, s if s is not None else g,
+                 f'self.{attr}: ' + (f'{txt} on every path after the append' if ok else f'{txt} - is not {fn}(old, {span_var}[{idx}]) on every accepting path'), key=f'span-update:{attr}')
+    ctx.counters['paths_enumerated'] += pcount[0]
     # add_fragment: True <=> _add_fragment was called
     h = ctx.fn(MOLECULE, 'Molecule.add_fragment')
     cfg = CFG(h.body, exceptions=False)
